@@ -13,11 +13,14 @@ if "--tier" in sys.argv:
     args = [a for a in args if a != tier]
 wt, scratch, props = Path(args[0]).resolve(), Path(args[1]).resolve(), args[2:]
 h = scratch / "harness"
-if not h.exists():
-    scratch.mkdir(parents=True, exist_ok=True)
+scratch.mkdir(parents=True, exist_ok=True)
+if h.exists():  # always work on a fresh copy of the current harness sources (build output lives elsewhere)
+    shutil.rmtree(h / "src", ignore_errors=True)
+    shutil.copytree(V / "harness" / "src", h / "src")
+else:
     shutil.copytree(V / "harness", h, ignore=shutil.ignore_patterns("target"))
-    t = (h / "Cargo.toml").read_text().replace('path = "/repo"', 'path = "%s"' % wt)
-    (h / "Cargo.toml").write_text(t)
+t = (V / "harness" / "Cargo.toml").read_text().replace('path = "/repo"', 'path = "%s"' % wt)
+(h / "Cargo.toml").write_text(t)
 env = dict(os.environ, VERIF_HARNESS_DIR=str(h), VERIF_BUILD_DIR=str(scratch / "build"), VERIF_EVIDENCE_DIR=str(scratch / "evidence"),
            VERIF_REPLAYS_DIR=str(scratch / "replays"), VERIF_REPO_DIR=str(wt))
 rc_all = 0
